@@ -3,6 +3,7 @@
 package actionlint
 
 import (
+	"sort"
 	"strings"
 
 	"gopkg.in/yaml.v3"
@@ -435,4 +436,59 @@ func HarnessC09OddKey() {
 	verifReach("compared")
 	verifCheckf(len(kinds(e0)) > 0, "baseline-lost-its-diagnostics", verifErrTextConc(e0))
 	verifCheckf(kinds(e0) == kinds(e1), "job-diagnostics-depend-on-other-job", verifErrTextConc(e1))
+}
+
+// HarnessC09RuleIsolation: the rules share the syntax tree and nothing else:
+// linting with all rules gives exactly the diagnostics of the rules run one at
+// a time, each on a freshly parsed tree (concatenated in rule order and sorted
+// by position the way the linter does). Workflows: the C02 corpus and every
+// C09 job variant, the full skeleton, and the skeleton with each scalar made a
+// quoted placeholder holding an undefined variable.
+func HarnessC09RuleIsolation() {
+	var src string
+	var mk func() *yaml.Node
+	k := verifChoose("workflow", len(verifC02Corpus)+len(verifC09Jobs)+1)
+	switch {
+	case k < len(verifC02Corpus):
+		src = verifC02Corpus[k]
+	case k < len(verifC02Corpus)+len(verifC09Jobs):
+		src = verifC09Doc([]string{"ja"}, []int{k - len(verifC02Corpus)})
+	default:
+		site := verifChoose("scalar", 200)
+		mk = func() *yaml.Node {
+			doc, sites := verifSkeletonSitesOf(verifSkeletonFull)
+			if site < len(sites.scalars) {
+				n := sites.scalars[site].node
+				n.Tag, n.Style, n.Value = "!!str", yaml.SingleQuotedStyle, "x/${{ nosuchvar }}/**"
+			}
+			verifPlace(doc, 1, 0)
+			return doc
+		}
+	}
+	if mk == nil {
+		mk = func() *yaml.Node { return verifParseYAML(src) }
+	}
+	all := verifLintNode(mk(), verifRules())
+	n := len(verifRules())
+	var parts []*Error
+	for r := 0; r < n; r++ {
+		w, perrs := verifParseOnly(mk())
+		if r == 0 {
+			parts = append(parts, perrs...)
+		}
+		if w == nil {
+			continue
+		}
+		rule := verifRules()[r]
+		v := NewVisitor()
+		v.AddPass(rule)
+		if err := v.Visit(w); err != nil {
+			verifCheck(false, "visitor-returned-error")
+			return
+		}
+		parts = append(parts, rule.Errs()...)
+	}
+	sort.Stable(ByErrorPosition(parts))
+	verifReach("compared")
+	verifCheckf(verifSameSeq(all, parts), "diagnostics-of-a-rule-depend-on-the-other-rules", verifErrTextConc(all)+" <> "+verifErrTextConc(parts))
 }
